@@ -714,6 +714,11 @@ func c10JSONRules(r *fw.Run, p *fw.Program) {
 	}
 	ef := p.Fn("(*internal/colorjson.Encoder).encodeFloat64")
 	es := p.Fn("(*internal/colorjson.Encoder).encodeString")
+	// one printer per number type: no second, lossy route (a "fast path" through uint64 / int64 / float64)
+	c10OnlyPrinters(ru, p, enc, "encode", map[string]bool{"strconv.AppendInt": true, "(*math/big.Int).Append": true})
+	if ef != nil && ef.Blocks != nil {
+		c10OnlyPrinters(ru, p, ef, "encodeFloat64", map[string]bool{"strconv.AppendFloat": true})
+	}
 	for _, a := range []struct {
 		k, ty string
 		fn    *ssa.Function
@@ -1238,4 +1243,41 @@ func c10Ch(k int64) string {
 // c10TypeName prints a type with the empty interface spelled "any" whatever the toolchain's alias mode.
 func c10TypeName(t types.Type) string {
 	return strings.ReplaceAll(types.TypeString(t, nil), "interface{}", "any")
+}
+
+// c10OnlyPrinters: in the number arms of the JSON encoder the digits come from the one exact printer of
+// the arm's type. Any other strconv / math/big formatting or narrowing call (AppendUint of
+// v.Uint64(), AppendInt of int64(f), v.Int64(), v.Float64() ...) is a second route that prints some
+// values of the type differently (sign or high bits lost); a float converted to an integer type is the
+// same route spelled as a conversion.
+func c10OnlyPrinters(ru *fw.Rule, p *fw.Program, fn *ssa.Function, name string, allowed map[string]bool) {
+	bad := ""
+	pos := p.Rel(fn.Pos())
+	for _, f := range fw.WithClosures(fn) {
+		for _, c := range fw.CallsIn(f) {
+			n := fw.CalleeName(c)
+			if allowed[n] {
+				continue
+			}
+			if strings.HasPrefix(n, "strconv.") || strings.HasPrefix(n, "(*math/big.Int).") || strings.HasPrefix(n, "(*math/big.Float).") {
+				if bad == "" {
+					bad = n
+					pos = p.Rel(c.Pos())
+				}
+			}
+		}
+		fw.EachInstr(f, func(ins ssa.Instruction) {
+			cv, ok := ins.(*ssa.Convert)
+			if !ok {
+				return
+			}
+			from, okF := cv.X.Type().Underlying().(*types.Basic)
+			to, okT := cv.Type().Underlying().(*types.Basic)
+			if okF && okT && from.Info()&types.IsFloat != 0 && to.Info()&types.IsInteger != 0 && bad == "" {
+				bad = "a conversion of the float to " + to.Name()
+				pos = p.Rel(cv.Pos())
+			}
+		})
+	}
+	ru.Check(bad == "", name+":one-printer", pos, "numbers are printed only by the exact printer of their type", "the encoder also formats a number through "+bad+": values outside that route's range (negative or > 64 bit integers, integral floats >= 2^63) print as a different number")
 }
